@@ -56,9 +56,9 @@ def strip_trailer(pdu: bytes, cleartext_body: t.Optional[bytes] = None) -> bytes
     return bytes(hdr) + body
 
 
-def bogus_trailer(pdu: bytes, cleartext_body: bytes) -> bytes:
+def bogus_trailer(pdu: bytes, cleartext_body: bytes, alen: t.Optional[int] = None) -> bytes:
     r = _regions(pdu)
-    alen = r["sig"][1] - r["sig"][0]
+    alen = (r["sig"][1] - r["sig"][0]) if alen is None else alen
     body = cleartext_body + b"\x00" * (-len(cleartext_body) % 16)
     hdr = bytearray(pdu[:24])
     struct.pack_into("<HH", hdr, 8, 24 + len(body) + 8 + alen, alen)
@@ -221,6 +221,18 @@ def run(ctx: Ctx) -> int:
         elif act == "inject_bogus_trailer":
             outs = low_level(sign, pre + [lambda rep, hist: bogus_trailer(rep, b"EVIL-STUB" * 8)])
             add(sign, call, "inject_bogus_trailer", "none", -1, outs[-1], "rpc")
+            # a verifier that is shorter or longer than a real signature (auth_len 1..15, 17, 32) is still not a signature
+            for alen in (1, 2, 4, 8, 12, 15, 17, 32):
+                outs = low_level(sign, pre + [lambda rep, hist, alen=alen: bogus_trailer(rep, b"EVIL-STUB" * 8, alen)])
+                add(sign, call, "inject_bogus_trailer", "none", -alen, outs[-1], "rpc")
+                # ... also when the body is the authentic ciphertext and the authentic signature is merely cut short
+                def cut_sig(rep: bytes, hist: list, alen: int = alen) -> bytes:
+                    r = _regions(rep)
+                    b = bytearray(rep[: r["sig"][0]] + rep[r["sig"][0] : r["sig"][0] + alen].ljust(alen, b"\x00"))
+                    struct.pack_into("<HH", b, 8, len(b), alen)
+                    return bytes(b)
+                outs = low_level(sign, pre + [cut_sig])
+                add(sign, call, "flip", "sig", -alen, outs[-1], "rpc")
         elif act == "replay":
             if call < 2:
                 continue
